@@ -198,6 +198,24 @@ static void closest_case(unsigned is, unsigned max)
     VP_CHECK(CAD[is][x] <= lastd, "closest: every omitted object is at least as far as the last returned one");
   if (r == 3 && OT[is] == HWLOC_OBJ_PU) closest_w3 = 1;
 }
+/* the source may be a memory object: NUMA nodes have a cpuset (what the documentation asks for) and live in a special level (negative depth) */
+VP_HARNESS(h_closest_numa)
+{
+  T = vp_seed_build(1, 0);
+  unsigned nn = T->slevels[HWLOC_SLEVEL_NUMANODE].nbobjs;
+  VP_CHECK(nn == 2, "seed S1 has two NUMA nodes");
+  unsigned is = (unsigned) vp_in_range(0, 1), max = (unsigned) vp_in_range(0, 3);
+  int done = 0;
+  for (unsigned v = 0; v < 2; v++) if (is == v && v < nn) {
+    hwloc_obj_t src = T->slevels[HWLOC_SLEVEL_NUMANODE].objs[v], other = T->slevels[HWLOC_SLEVEL_NUMANODE].objs[1 - v];
+    hwloc_obj_t objs[3] = { NULL, NULL, NULL };
+    unsigned r = hwloc_get_closest_objs(T, src, objs, max);
+    VP_CHECK(r == (max ? 1U : 0U), "closest(NUMA): min(max, other NUMA nodes) are returned");
+    if (r) VP_CHECK(objs[0] == other, "closest(NUMA): the other NUMA node");
+    done = 1;
+  }
+  VP_WITNESS_IF(done && max >= 1, "the closest NUMA node of a NUMA node asked for");
+}
 VP_HARNESS(h_closest)
 {
   T = vp_seed_build(SEED, 0); build_table();
